@@ -147,6 +147,8 @@ PROPS["C08"] = dict(
         # bounded-exhaustive shape grids: every (nrows, ncols) in [1,N]^2 for transpose / copy / add / set_ui (all 12 size-specialised transpose
         # kernels with every residue pair); quick: N = 66 for transpose only, thorough: N = 130 for four ops
         S("small-asan", "func", ["--ops", "mzd_transpose", "--arg", "grid:66"], (4356, 0), (0, 0)),
+        # assertions compiled in (--enable-debug): an assert that fires on a valid call is a crash in a supported configuration
+        S("mid-debug-asan", "func", ["--fam", "move", "--wide", "1"], (600, 1100), (8000, 1400)),
         S("small-asan", "func", ["--ops", "mzd_transpose,mzd_copy,mzd_add,mzd_set_ui", "--arg", "grid:130"], (0, 0), (67600, 0)),
         S("small-nosse-ts-asan", "func", ["--ops", "mzd_transpose,mzd_add", "--arg", "grid:130"], (0, 0), (33800, 0)),
     ]),
@@ -217,6 +219,7 @@ PROPS["C11"] = dict(
         S("host-clang-asan", "func", ["--fam", ALLFAM, "--policy", "win"], (3000, 300), (60000, 1200)),
         # MemorySanitizer: reads of uninitialised scalars / heap words that influence a branch, an address or a result
         S("small-asan", "func", ["--fam", ALLFAM, "--policy", "win", "--wide", "1"], (500, 1100), (6000, 1400)),
+        S("mid-debug-asan", "func", ["--fam", ALLFAM, "--wide", "1"], (600, 1100), (8000, 1400)),
         S("small-msan", "func", ["--fam", ALLFAM], (4000, 300), (60000, 800)),
         S("small-msan", "func", ["--fam", ALLFAM, "--policy", "win"], (2000, 300), (30000, 800)),
         S("small-gomp-asan", "func", ["--fam", "mul,ech", "--policy", "win"], (500, 300), (10000, 700), env={"OMP_NUM_THREADS": "4"}),
